@@ -1049,3 +1049,275 @@ Proof.
   - destruct S as (st1 & S & A). eapply (star_run _ _ _ _ S 1%nat). 2: discriminate.
     simpl. rewrite A. reflexivity.
 Qed.
+
+(* ---- the loop numbers in generated code are pairwise distinct ---- *)
+
+Section ExprInd.
+  Variable P : expr -> Prop.
+  Hypothesis HInt : forall z, P (EInt z).
+  Hypothesis HBool : forall b, P (EBool b).
+  Hypothesis HNil : P ENil.
+  Hypothesis HStr : forall s, P (EStr s).
+  Hypothesis HQuote : forall d, P (EQuote d).
+  Hypothesis HVar : forall x, P (EVar x).
+  Hypothesis HArr : forall es, Forall P es -> P (EArr es).
+  Hypothesis HCall : forall f args, P f -> Forall P args -> P (ECall f args).
+  Hypothesis HBegin : forall es, Forall P es -> P (EBegin es).
+  Hypothesis HCond : forall arms d, Forall (fun cb => P (fst cb) /\ P (snd cb)) arms -> P d -> P (ECond arms d).
+  Hypothesis HAnd : forall es, Forall P es -> P (EAnd es).
+  Hypothesis HOr : forall es, Forall P es -> P (EOr es).
+  Hypothesis HDef : forall x e, P e -> P (EDef x e).
+  Hypothesis HSet : forall x e, P e -> P (ESet x e).
+  Hypothesis HLet : forall seq bs body, Forall (fun xb => P (snd xb)) bs -> Forall P body -> P (ELet seq bs body).
+  Hypothesis HScope : forall es, Forall P es -> P (EScope es).
+  Hypothesis HFor : forall l i t st body, P i -> P t -> P st -> Forall P body -> P (EFor l i t st body).
+  Hypothesis HBreak : forall l, P (EBreak l).
+  Hypothesis HCont : forall l, P (ECont l).
+  Hypothesis HFn : forall ps r body, Forall P body -> P (EFn ps r body).
+  Hypothesis HDefn : forall nm ps r body, Forall P body -> P (EDefn nm ps r body).
+
+  Fixpoint expr_ind_nested (e : expr) : P e :=
+    let go := fix go (l : list expr) : Forall P l :=
+                match l with [] => Forall_nil _ | x :: r => Forall_cons _ (expr_ind_nested x) (go r) end in
+    match e with
+    | EInt z => HInt z
+    | EBool b => HBool b
+    | ENil => HNil
+    | EStr s => HStr s
+    | EQuote d => HQuote d
+    | EVar x => HVar x
+    | EArr es => HArr es (go es)
+    | ECall f args => HCall f args (expr_ind_nested f) (go args)
+    | EBegin es => HBegin es (go es)
+    | ECond arms d =>
+      HCond arms d
+            ((fix ga (l : list (expr * expr)) : Forall (fun cb => P (fst cb) /\ P (snd cb)) l :=
+                match l with
+                | [] => Forall_nil _
+                | (c, b) :: r => @Forall_cons _ (fun cb => P (fst cb) /\ P (snd cb)) (c, b) r (conj (expr_ind_nested c) (expr_ind_nested b)) (ga r)
+                end) arms) (expr_ind_nested d)
+    | EAnd es => HAnd es (go es)
+    | EOr es => HOr es (go es)
+    | EDef x e1 => HDef x e1 (expr_ind_nested e1)
+    | ESet x e1 => HSet x e1 (expr_ind_nested e1)
+    | ELet seq bs body =>
+      HLet seq bs body
+           ((fix gb (l : list (ident * expr)) : Forall (fun xb => P (snd xb)) l :=
+               match l with
+               | [] => Forall_nil _
+               | (x, e1) :: r => @Forall_cons _ (fun xb => P (snd xb)) (x, e1) r (expr_ind_nested e1) (gb r)
+               end) bs) (go body)
+    | EScope es => HScope es (go es)
+    | EFor l i t st body => HFor l i t st body (expr_ind_nested i) (expr_ind_nested t) (expr_ind_nested st) (go body)
+    | EBreak l => HBreak l
+    | ECont l => HCont l
+    | EFn ps r body => HFn ps r body (go body)
+    | EDefn nm ps r body => HDefn nm ps r body (go body)
+    end.
+End ExprInd.
+
+Lemma ls_ids_app : forall a b, ls_ids (a ++ b) = ls_ids a ++ ls_ids b.
+Proof.
+  induction a as [|i a IH]; intros b; simpl; [reflexivity|]. destruct i; simpl; rewrite ?IH; reflexivity.
+Qed.
+
+Definition ids_ok (e : expr) : Prop := forall c n, ls_ids (gen c n e) = seq n (nloops e).
+
+Lemma ids_begin : forall es, Forall ids_ok es -> forall c n,
+  ls_ids (gen_begin gen nloops c n es) = seq n (nl_list nloops es).
+Proof.
+  induction es as [|e r IH]; intros H c n; [reflexivity|]. inversion H; subst.
+  destruct r as [|e2 r].
+  - simpl. rewrite Nat.add_0_r. apply H2.
+  - change (gen_begin gen nloops c n (e :: e2 :: r)) with
+      ((match gen c n e with [] => [] | _ => gen c n e ++ [IPop] end) ++ gen_begin gen nloops c (n + nloops e) (e2 :: r)).
+    change (nl_list nloops (e :: e2 :: r)) with (nloops e + nl_list nloops (e2 :: r))%nat.
+    rewrite ls_ids_app, seq_app, (IH H3). f_equal.
+    pose proof (H2 c n) as E. destruct (gen c n e) eqn:G; [exact E|]. rewrite ls_ids_app, E. simpl. apply app_nil_r.
+Qed.
+
+Lemma ids_scope_body : forall es, Forall ids_ok es -> forall c n,
+  ls_ids (gen_scope_body gen nloops c n es) = seq n (nl_list nloops es).
+Proof.
+  induction es as [|e r IH]; intros H c n; [reflexivity|]. inversion H; subst.
+  destruct r as [|e2 r].
+  - simpl. rewrite Nat.add_0_r. apply H2.
+  - change (gen_scope_body gen nloops c n (e :: e2 :: r)) with
+      (gen c n e ++ [IPop] ++ gen_scope_body gen nloops c (n + nloops e) (e2 :: r)).
+    change (nl_list nloops (e :: e2 :: r)) with (nloops e + nl_list nloops (e2 :: r))%nat.
+    rewrite ls_ids_app, seq_app, (H2 c n). f_equal. simpl. apply (IH H3).
+Qed.
+
+Lemma ids_sc : forall or es, Forall ids_ok es -> forall c n,
+  ls_ids (gen_sc gen nloops c n or es) = seq n (nl_list nloops es).
+Proof.
+  intros or. induction es as [|e r IH]; intros H c n; [reflexivity|]. inversion H; subst.
+  destruct r as [|e2 r].
+  - simpl. rewrite Nat.add_0_r. apply H2.
+  - change (gen_sc gen nloops c n or (e :: e2 :: r)) with
+      (gen c n e ++ [IDup; IBranch or (length (gen_sc gen nloops c (n + nloops e) or (e2 :: r)) + 2); IPop] ++
+       gen_sc gen nloops c (n + nloops e) or (e2 :: r)).
+    change (nl_list nloops (e :: e2 :: r)) with (nloops e + nl_list nloops (e2 :: r))%nat.
+    rewrite ls_ids_app, seq_app, (H2 c n). f_equal. simpl. apply (IH H3).
+Qed.
+
+Lemma ids_cond : forall arms d, Forall (fun cb => ids_ok (fst cb) /\ ids_ok (snd cb)) arms -> ids_ok d ->
+  forall c n, ls_ids (gen_cond gen nloops c n arms (fun n' => gen c n' d)) = seq n (nl_arms nloops arms + nloops d).
+Proof.
+  induction arms as [|[t b] r IH]; intros d H Hd c n; [apply Hd|]. inversion H; subst. destruct H2 as [Ht Hb]. simpl in Ht, Hb. unfold ids_ok in Ht, Hb.
+  simpl. rewrite !ls_ids_app. simpl. rewrite ls_ids_app. simpl. rewrite (Ht c n), (Hb c (n + nloops t)%nat), (IH d H3 Hd).
+  rewrite <- !seq_app. f_equal. lia.
+Qed.
+
+Lemma ids_inits : forall bs, Forall (fun xb => ids_ok (snd xb)) bs -> forall c n,
+  ls_ids (gen_inits gen nloops c n bs) = seq n (nl_binds nloops bs).
+Proof.
+  induction bs as [|[x e] r IH]; intros H c n; [reflexivity|]. inversion H; subst. simpl in *.
+  rewrite ls_ids_app, seq_app, (H2 c n), (IH H3). reflexivity.
+Qed.
+
+Lemma ids_letseq : forall bs, Forall (fun xb => ids_ok (snd xb)) bs -> forall c n,
+  ls_ids (gen_letseq gen nloops c n bs) = seq n (nl_binds nloops bs).
+Proof.
+  induction bs as [|[x e] r IH]; intros H c n; [reflexivity|]. inversion H; subst. simpl in *.
+  rewrite ls_ids_app, seq_app, (H2 c n). simpl. rewrite (IH H3). reflexivity.
+Qed.
+
+Lemma ids_putenvs : forall xs, ls_ids (map IPutEnv xs) = [].
+Proof. induction xs; simpl; auto. Qed.
+
+Lemma gen_ids : forall e, ids_ok e.
+Proof.
+  induction e using expr_ind_nested; unfold ids_ok; intros c n; try reflexivity.
+  - (* EBegin *) simpl. apply ids_begin. assumption.
+  - (* ECond *) simpl. apply ids_cond; assumption.
+  - simpl. apply ids_sc. assumption.
+  - simpl. apply ids_sc. assumption.
+  - (* EDef *) simpl. rewrite ls_ids_app. simpl. rewrite app_nil_r. apply IHe.
+  - simpl. rewrite ls_ids_app. simpl. rewrite app_nil_r. apply IHe.
+  - (* ELet *)
+    destruct seq; simpl; repeat (rewrite ?ls_ids_app; simpl); rewrite ?app_nil_r, ?ids_putenvs; simpl.
+    + rewrite ids_letseq by assumption. rewrite ids_begin by assumption. rewrite <- seq_app. reflexivity.
+    + rewrite ids_inits by assumption. rewrite ids_begin by assumption. rewrite <- seq_app. reflexivity.
+  - (* EScope *) simpl. rewrite ls_ids_app. simpl. rewrite app_nil_r. apply ids_scope_body. assumption.
+  - (* EFor *)
+    simpl. f_equal. repeat (rewrite ?ls_ids_app; simpl). rewrite ?app_nil_r.
+    rewrite (IHe1 _ _), (IHe3 _ _), (IHe2 _ _). rewrite ids_begin by assumption.
+    replace (S (n + nloops e1)) with (S n + nloops e1)%nat by lia.
+    replace (S (n + nloops e1 + nloops e3)) with (S n + nloops e1 + nloops e3)%nat by lia.
+    replace (S (n + nloops e1 + nloops e3 + nloops e2)) with (S n + nloops e1 + nloops e3 + nloops e2)%nat by lia.
+    rewrite <- !seq_app. f_equal. lia.
+  - (* EBreak *) simpl. destruct (find _ _) as [[[? ?] ?]|]; reflexivity.
+  - simpl. destruct (find _ _) as [[[? ?] ?]|]; reflexivity.
+Qed.
+
+Lemma nodupb_seq : forall k n, nodupb (seq n k) = true.
+Proof.
+  induction k as [|k IH]; intros n; simpl; [reflexivity|]. rewrite IH, andb_true_r. apply negb_true_iff.
+  assert (G : forall j a, (n < a)%nat -> existsb (Nat.eqb n) (seq a j) = false).
+  { induction j as [|j IHj]; intros a Ha; simpl; [reflexivity|].
+    destruct (Nat.eqb n a) eqn:E; [apply Nat.eqb_eq in E; lia|]. apply IHj. lia. }
+  apply G. lia.
+Qed.
+
+Theorem gen_loop_numbers_unique : forall c n e, nodupb (ls_ids (gen c n e)) = true.
+Proof. intros c n e. rewrite (gen_ids e c n). apply nodupb_seq. Qed.
+
+(* vm_refines_ref_F1 without the side condition *)
+Theorem vm_refines_ref_F1_closed : forall n e env s r s',
+  f1 e = true -> cc [] e = true -> eval n env e s = (r, s') -> r <> Fuel ->
+  exists k, run n (gen top 0 e) k (mkVm 0 [] env s) = (r, s').
+Proof. intros. eapply vm_refines_ref_F1; eauto. apply gen_loop_numbers_unique. Qed.
+
+(* ---- F2 (partial): the code of a function body (generator.go:buildSexpFun) ---- *)
+
+Lemma zip_params_spec : forall ps args acc b, length args = length ps ->
+  zip_params ps None args acc = Some b -> b = rev (combine ps args) ++ acc.
+Proof.
+  induction ps as [|p ps IH]; intros args acc b L H; destruct args as [|a args]; simpl in *; try lia.
+  - inversion H; subst. reflexivity.
+  - rewrite (IH args ((p, a) :: acc) b) by (try lia; assumption). rewrite <- app_assoc. reflexivity.
+Qed.
+
+Lemma zip_params_some : forall ps args acc, length args = length ps ->
+  exists b, zip_params ps None args acc = Some b.
+Proof.
+  induction ps as [|p ps IH]; intros args acc L; destruct args as [|a args]; simpl in *; try lia; eauto.
+Qed.
+
+(* A function without a rest parameter whose body is in F1, breaks nothing outside itself (cc []) and
+   has no self tail call: the code buildSexpFun emits -- AddFuncScope, PopStackPutEnv of the formals
+   last to first, the body, RemoveScope, Return -- started with the arguments on the data stack and
+   the closure's static chain as scope chain, returns what `apply` of the closure returns.
+   NOT covered (vm_refines_ref_F2 in full): the self tail call (RemoveScope x (scopes+1); PrepareCall;
+   Goto 0 -- equal to the reference call only while the function's name still resolves to the running
+   closure, the tco-by-name caveat), calls compiled into a shared VM with an address stack instead of
+   delegated, closures created inside the body, `& rest`. *)
+Theorem vm_refines_ref_F2_partial : forall n nm ps body cenv args s r s',
+  forallb f1 body = true -> init_ne body = true -> forallb (cc []) body = true ->
+  length args = length ps ->
+  apply (S n) (VClos nm ps None body cenv) args s = (r, s') -> r <> Fuel ->
+  exists k, run n (fun_code ps body) k (mkVm 0 (map SV (rev args)) cenv s) = (r, s').
+Proof.
+  intros n nm ps body cenv args s r s' Hf Hne Hcc Hlen Ha Hr.
+  remember (fun_code ps body) as code eqn:Ecode.
+  assert (Huniq : loops_unique code).
+  { apply nodup_unique. rewrite Ecode. unfold fun_code. rewrite !ls_ids_app. simpl. rewrite ids_putenvs. simpl.
+    rewrite app_nil_r. rewrite ids_begin; [apply nodupb_seq|]. rewrite Forall_forall. intros e _. apply gen_ids. }
+  assert (Hc : code_at code 0 (fun_code ps body)). { exists [], []. rewrite app_nil_r. auto. }
+  unfold fun_code in Hc.
+  pose proof (code_at_head _ _ _ _ Hc) as Hadd. apply code_at_cons in Hc.
+  apply code_at_app in Hc. destruct Hc as [Hcp Hc]. apply code_at_app in Hc. destruct Hc as [Hcb Hc].
+  pose proof (code_at_head _ _ _ _ Hc) as Hrem. apply code_at_cons in Hc. pose proof (code_at_head _ _ _ _ Hc) as Hret.
+  rewrite map_length, rev_length in *.
+  destruct (zip_params_some ps args [] Hlen) as [binds Hz].
+  rewrite (apply_closure_fresh n nm ps None body cenv args s binds Hz) in Ha.
+  pose proof (zip_params_spec _ _ _ _ Hlen Hz) as Eb. rewrite app_nil_r in Eb.
+  assert (Lc : length args = length ps) by exact Hlen.
+  destruct (combine_rev_fst ps args Lc) as [Efst Esnd]. rewrite <- Eb in Efst, Esnd.
+  set (fid := length (frames s)) in *. set (s1 := snd (push_frame s)) in *.
+  assert (Ep : push_frame s = (fid, s1)) by reflexivity.
+  unfold bindM in Ha.
+  assert (Sadd : star n code (mkVm 0 (map SV (rev args)) cenv s) (mkVm 1 (map SV (rev args)) (fid :: cenv) s1)).
+  { apply star_one. unfold step; cbn [pc stk scopes st]. rewrite Hadd, Ep. reflexivity. }
+  rewrite <- Efst in Hcp.
+  pose proof (sim_putenvs n code binds [] 1%nat [] fid cenv s1) as SP.
+  destruct (bind_all fid binds s1) as [[u|g|] s2] eqn:Ebind.
+  - specialize (SP _ _ Hcp eq_refl). simpl in SP. rewrite Esnd, app_nil_r in SP.
+    assert (Lb : length binds = length ps).
+    { rewrite Eb, rev_length, combine_length, Hlen. apply Nat.min_id. }
+    rewrite Lb in SP.
+    assert (Q : quiet (ev_begin (eval n) (fid :: cenv) body)).
+    { apply scoped_nil_quiet. apply scoped_ev_begin; [|assumption].
+      intros loops env0 e0 Hcc0. apply (proj1 (eval_apply_scoped n)). assumption. }
+    unfold no_loop_sig in Ha.
+    destruct (ev_begin (eval n) (fid :: cenv) body s2) as [rb s3] eqn:Ebody.
+    destruct (Q _ _ _ Ebody) as [Qb Qc].
+    assert (Ha' : (rb, s3) = (r, s')).
+    { destruct rb as [v|[lb|lb|e0]|]; simpl in Ha; try exact Ha.
+      - exfalso. eapply Qb. reflexivity.
+      - exfalso. eapply Qc. reflexivity. }
+    inversion Ha'; subst rb s3. clear Ha'.
+    pose proof (sim_begin n code n (gen_sim n code Huniq n (le_n n)) body Hf Hne top 0%nat [] (1 + length ps)%nat []
+                  (fid :: cenv) s2 _ _ eq_refl (Forall_nil _) (Forall_nil _) Hcb Ebody) as SB.
+    destruct r as [v|[lb|lb|e0]|]; [|exfalso; eapply Qb; reflexivity|exfalso; eapply Qc; reflexivity| |congruence];
+      unfold sim in SB; simpl in SB.
+    + assert (Send : star n code (mkVm 0 (map SV (rev args)) cenv s)
+                       (mkVm (1 + length ps + length (gen_begin gen nloops top 0 body) + 1) [SV v] cenv s')).
+      { eapply star_trans; [exact Sadd|]. eapply star_trans; [exact SP|]. eapply star_trans; [exact SB|].
+        apply star_one. unfold step; cbn [pc stk scopes st]. fetch Hrem. f_equal. f_equal. lia. }
+      eapply (star_run _ _ _ _ Send 1%nat). 2: discriminate.
+      simpl. unfold step; cbn [pc stk scopes st]. fetch Hret. reflexivity.
+    + destruct SB as (m0 & Sm & A).
+      assert (Sall : star n code (mkVm 0 (map SV (rev args)) cenv s) m0).
+      { eapply star_trans; [exact Sadd|]. eapply star_trans; [exact SP|]. exact Sm. }
+      eapply (star_run _ _ _ _ Sall 1%nat). 2: discriminate. simpl. rewrite A. reflexivity.
+  - assert (Hrs : r = Sig g /\ s' = s2) by (inversion Ha; auto). destruct Hrs as [-> ->].
+    specialize (SP _ _ Hcp eq_refl). rewrite Esnd, app_nil_r in SP.
+    pose proof (quiet_bind_all fid binds s1 _ _ Ebind) as [Qb Qc].
+    destruct g as [lb|lb|e0]; [exfalso; eapply Qb; reflexivity|exfalso; eapply Qc; reflexivity|].
+    simpl in SP. destruct SP as (m0 & Sm & A).
+    assert (Sall : star n code (mkVm 0 (map SV (rev args)) cenv s) m0) by (eapply star_trans; [exact Sadd|exact Sm]).
+    eapply (star_run _ _ _ _ Sall 1%nat). 2: discriminate. simpl. rewrite A. reflexivity.
+  - inversion Ha. congruence.
+Qed.
